@@ -684,7 +684,7 @@ def str_lower(x):
 def lower_axioms():
     a, b = z3.Strings('a!ax b!ax')
     return [
-        z3.ForAll([a], _LOWER(_LOWER(a)) == _LOWER(a), patterns=[_LOWER(a)]),
+        z3.ForAll([a], _LOWER(_LOWER(a)) == _LOWER(a), patterns=[_LOWER(_LOWER(a))]),
         z3.ForAll([a], z3.Length(_LOWER(a)) == z3.Length(a), patterns=[_LOWER(a)]),
         z3.ForAll([a, b], _LOWER(z3.Concat(a, b)) == z3.Concat(_LOWER(a), _LOWER(b)),
                   patterns=[_LOWER(z3.Concat(a, b))]),
